@@ -903,13 +903,20 @@ func (e *env) liveness(when string) {
 		e.allOps[op.GetId()] = rec
 	}
 	s.mc.Send(&spb.ModifyRequest{Operation: ops})
+	// (however the server groups results into responses: read until every operation has its verdict)
 	var rs []*spb.ModifyResponse
-	for range ops {
+	answered := map[uint64]bool{}
+	for len(answered) < len(ops) {
 		r, err := s.mc.RecvTimeout(deadline)
 		if err != nil {
 			fail(fmt.Sprintf("a new primary's ADD was not answered (%v)", err))
 		}
 		rs = append(rs, r)
+		for _, res := range r.GetResult() {
+			if st := res.GetStatus(); s.sent[res.GetId()] != nil && res.GetId() >= 800000 && (st == spb.AFTResult_RIB_PROGRAMMED || st == spb.AFTResult_FAILED) {
+				answered[res.GetId()] = true
+			}
+		}
 	}
 	e.processResults(s, rs)
 	for _, op := range ops {
